@@ -2,4 +2,5 @@ SPECIFICATION SSpec
 CONSTANTS
   Backends = {"b1", "b2"}
   MaxJoins = 2
+  AllowEarlyAck = FALSE
 INVARIANTS TypeOK PlayImpliesJoined NoBackendBeforeLogin CfgAckOrder
